@@ -208,8 +208,10 @@ fn num_u(rng: &mut StdRng) -> u64 {
 }
 
 fn random_moves(rng: &mut StdRng, start: &Pos, max: usize) -> Vec<String> {
-    let n = if rng.gen_bool(0.2) { 0 } else { rng.gen_range(0..=max) };
-    let policy = gen::POLICIES[rng.gen_range(0..3)];
+    // mostly 0..max plies; a few very long games (lines of more than 512 / 1024 tokens)
+    let long = rng.gen_range(0..40) == 0;
+    let n = if long { rng.gen_range(505..1300) } else if rng.gen_bool(0.2) { 0 } else { rng.gen_range(0..=max) };
+    let policy = if long { gen::Policy::Shuffle } else { gen::POLICIES[rng.gen_range(0..3)] };
     gen::walk(rng, start, policy, n).1.iter().map(|m| m.uci()).collect()
 }
 
@@ -269,7 +271,7 @@ pub fn positive(rng: &mut StdRng, starts: &mut gen::Starts, rep: &mut Report) {
     let kind = format!("{:?}", c).split(|ch: char| !ch.is_alphanumeric()).next().unwrap_or("").to_string();
     rep.count(&format!("positive_{}", kind));
     if let Cmd::Go(ps) = &c { rep.max("max_go_params", ps.len() as u64); rep.distinct_str(&format!("{:?}", ps.iter().map(|p| std::mem::discriminant(p)).collect::<Vec<_>>())); }
-    if let Cmd::Position { moves, .. } = &c { rep.max("max_position_moves", moves.len() as u64); }
+    if let Cmd::Position { moves, .. } = &c { rep.max("max_position_moves", moves.len() as u64); if moves.len() > 512 { rep.count("positive_lines_with_more_than_512_moves"); } }
     let replay = json!({"kind":"c15-line","line":line});
     match parse(&line) {
         Err(pm) => rep.violation(&format!("parse-{}", panic_sig(&pm)), format!("parser panicked on {:?}: {}", line, pm), replay),
